@@ -130,7 +130,14 @@ def run(run, scr, tier, seed, only=None):
     for r in hres:
         run.add_query({'name': r['name'], 'engine': 'E2 loop-step lemma', 'verdict': 'holds' if r['verdict'] == 'holds' else ('sat' if r['verdict'] == 'mismatch' else 'refused'), 'detail': r['detail'][:300]}, core=r['verdict'] != 'refused')
     hs = []
-    if hint_refused or hint_bad or tier == 'thorough':
+    # the native hostile-input workload runs first: a reproduced panic makes the slow window harnesses unnecessary
+    oc, locs, msgs, out = native(scr)
+    pre_codec = None
+    if (hint_refused or hint_bad) and not locs:
+        from props import c08 as _c08
+        pre_codec = _c08.native(scr)
+    early_panic = bool(locs) or bool(pre_codec and any('PANICS' in m for m in pre_codec[1]))
+    if (hint_refused or hint_bad or tier == 'thorough') and not (early_panic and tier != 'thorough'):
         win = ['c08_hint_window_0', 'c08_hint_window_2', 'c08_hint_window_4']
         hs = [Harness('verif_kani::c08::' + w, 'C13', timeout=2400, loop_rules=[(r'hint_bit_unpack::<2>', 12)],
                       bounds='hint_bit_unpack::<2>(omega = 8): both count bytes and a 4-byte index window symbolic; every index / overflow / debug assertion of the real decoder') for w in win]
@@ -149,7 +156,6 @@ def run(run, scr, tier, seed, only=None):
             else:
                 r.status = 'success'; r.detail = 'only functional (C08-tagged) assertions failed; no panic-class check failed'
     run.add_kani_results(kres)
-    oc, locs, msgs, out = native(scr)
     run.add_query({'name': 'native hostile-input workload through the public API (dev profile: debug assertions + overflow checks), all three sets', 'engine': 'native replay workload', 'verdict': 'holds' if oc == 'pass' else ('sat' if oc == 'fail' else 'unknown'), 'panic_locations': locs, 'trivial': True}, core=False)
     if oc == 'error':
         run.inconclusive.append('native hostile workload failed to build/run: ' + out[-600:])
@@ -166,7 +172,7 @@ def run(run, scr, tier, seed, only=None):
         run.violation(key, f'public API panics at {loc} (`{text}`) on accepted hostile input: {msgs[:2]}', path)
     if hint_bad and not decoder_panics and not locs:
         from props import c08
-        res8, msgs8 = c08.native(scr)
+        res8, msgs8 = pre_codec if pre_codec else c08.native(scr)
         path = vlib.save_replay('C13', 'decoder', {'property': 'C13', 'kind': 'decoder', 'lemmas': [(r['name'], r['detail']) for r in hint_bad], 'native': res8})
         if any('PANICS' in m for m in msgs8):
             run.violation('panic:decoder:hint_bit_unpack', f'hint decoder panics on hostile bytes: {hint_bad[0]["detail"][:200]}; native: {msgs8[:2]}', path)
